@@ -74,4 +74,115 @@ theorem valY5 : WValOk c5.1 R (maxInlineArr c5.1.T) (.child Y 0) :=
 theorem runA7 : c6.2.1.arrInsert X 1 (pl 2) c6.2.2 = .ok c7 := by
   rw [arrInsert_eq_S]; exact eq_okW _ (by decide)
 
+/-! ### Run B: map parent; the child removed (B1) or overwritten by another container (B2)
+
+Root map `P`; array `X` stored under the key `K1` and given one value through its handle (it is
+INLINED in `P`).  B1: `OrderedMap.Remove P K1`, then `Array.Insert X 1 …` through the handle of the
+detached `X` (its stale closure reads `K1`: key not found).  B2: `OrderedMap.Set P K1 Y` overwrites
+`X` by the array `Y`, then the same mutation of `X` (its closure reads `K1`: another container). -/
+
+/-- kernel-evaluable `mapRemove` -/
+def mapRemoveS (w : World) (p : SlabID) (k : MKey) (cx : Ctx) : Except WErr (MKey × Elem × World × Ctx) :=
+  match w.cont? p with
+  | some (.map m) =>
+    match m.remove w.mcfg k cx with
+    | .error er => .error (.map er)
+    | .ok (rk, rv, m', cx) => do
+      let w := w.setCont p (.map m')
+      let (w, cx) ← notifyS w.fuelOf w p cx
+      let (rv', _, w, cx) ← w.uninlineIfNeeded rv cx
+      return (rk, rv', w, cx)
+  | _ => .error .unknownContainer
+
+theorem mapRemove_eq_S : mapRemove = mapRemoveS := by
+  funext w p k cx
+  unfold mapRemove mapRemoveS
+  simp only [notifyParent_eq_notifyS]
+  rfl
+
+def okR (r : Except WErr (MKey × Elem × World × Ctx)) : MKey × Elem × World × Ctx :=
+  match r with | .ok x => x | .error _ => (default, default, w0, cx0)
+
+theorem eq_okR (r : Except WErr (MKey × Elem × World × Ctx)) (h : r.toBool = true) : r = .ok (okR r) := by
+  cases r with
+  | ok x => rfl
+  | error e => cases h
+
+open Atree.OkScenario (mapSetS mapSet_eq_S okM eq_okM K1 keyOk_K1)
+
+def P : SlabID := ⟨1, 1⟩
+
+def d1 : SlabID × World × Ctx := w0.newMap 7 5 cx0
+def d2 : SlabID × World × Ctx := d1.2.1.newArr 8 d1.2.2
+def d3 : SlabID × World × Ctx := d2.2.1.newArr 9 d2.2.2
+/-- `X` stored under `K1` in `P` -/
+def d4 : Option Elem × World × Ctx := okM (mapSetS d3.2.1 P K1 (.child X 0) d3.2.2)
+/-- one value through the handle of `X` (inlined in `P`) -/
+def d5 : World × Ctx := okW (d4.2.1.arrInsertS X 0 (pl 1) d4.2.2)
+/-- B1: `X` removed from `P` -/
+def d6 : MKey × Elem × World × Ctx := okR (mapRemoveS d5.1 P K1 d5.2)
+/-- B1: the detached `X` mutated through its handle -/
+def d7 : World × Ctx := okW (d6.2.2.1.arrInsertS X 1 (pl 2) d6.2.2.2)
+def midB1 : World × Ctx := preInsert d6.2.2.1 X 1 ⟨20, .val 2⟩ d6.2.2.2
+/-- B2: `X` overwritten by `Y` under `K1` -/
+def e6 : Option Elem × World × Ctx := okM (mapSetS d5.1 P K1 (.child Y 0) d5.2)
+/-- B2: the detached `X` mutated through its handle -/
+def e7 : World × Ctx := okW (e6.2.1.arrInsertS X 1 (pl 2) e6.2.2)
+def midB2 : World × Ctx := preInsert e6.2.1 X 1 ⟨20, .val 2⟩ e6.2.2
+
+deriving instance DecidableEq for Except
+
+/-- the map a container is, or an empty one -/
+def mapOf (w : World) (v : SlabID) : OMap 3 :=
+  match w.cont? v with
+  | some (.map m) => m
+  | _ => (OMap.new 0 0 (fun _ => 0) cx0 : OMap 3 × Ctx).1
+
+theorem idsB : d1.1 = P ∧ d2.1 = X ∧ d3.1 = Y := by decide
+
+theorem okB1 : WorldOk' D d1.2.1 d1.2.2.ctr := (C10W.worldOk'_newMap D w0 7 5 cx0 okA0).1
+theorem okB2 : WorldOk' D d2.2.1 d2.2.2.ctr := (C10W.worldOk'_newArr D _ 8 _ okB1).1
+theorem okB3 : WorldOk' D d3.2.1 d3.2.2.ctr := (C10W.worldOk'_newArr D _ 9 _ okB2).1
+
+theorem runB4 : d3.2.1.mapSet P K1 (.child X 0) d3.2.2 = .ok d4 := by
+  rw [mapSet_eq_S]; exact eq_okM _ (by decide)
+
+theorem okB4 : WorldOk' D d4.2.1 d4.2.2.ctr ∧ HandleOk d4.2.1 X := by
+  have hv : WValOk d3.2.1 P (maxInlineMapValue d3.2.1.T K1.size) (.child X 0) :=
+    ⟨freshB_live (by decide), unrefB_sound (by decide), not_anc_of_fresh (by decide) (by decide), by decide⟩
+  obtain ⟨h1, _, h3, _, _⟩ := C10W.worldOk'_mapSet D _ P K1 _ _ _ _ _ okB3
+    (HandleOk.root _ (unrefB_sound (by decide))) keyOk_K1 hv runB4
+  obtain ⟨m, m', e, oldo, _, _, _, _, _, _, hch⟩ := h3
+  exact ⟨h1, (hch X 0 rfl).2.1⟩
+
+theorem runB5 : d4.2.1.arrInsert X 0 (pl 1) d4.2.2 = .ok d5 := by
+  rw [arrInsert_eq_S]; exact eq_okW _ (by decide)
+
+theorem okB5 : WorldOk' D d5.1 d5.2.ctr := by
+  have hv : WValOk d4.2.1 X (maxInlineArr d4.2.1.T) (pl 1) := ⟨⟨by decide, 1, rfl⟩, by decide⟩
+  exact (C10W.worldOk'_arrInsert D _ X 0 _ _ _ _ okB4.1 okB4.2 hv runB5).1
+
+/-- the handle of the root `P` is current -/
+theorem handleP5 : HandleOk d5.1 P := HandleOk.root _ (unrefB_sound (by decide))
+
+theorem keyP5 : KeyOk d5.1.T 4 (D P) K1 := keyOk_K1
+
+/-- B1: the removal is a successful run of the MODEL operation -/
+theorem runB6 : d5.1.mapRemove P K1 d5.2 = .ok d6 := by
+  rw [mapRemove_eq_S]; exact eq_okR _ (by decide)
+
+theorem runB7 : d6.2.2.1.arrInsert X 1 (pl 2) d6.2.2.2 = .ok d7 := by
+  rw [arrInsert_eq_S]; exact eq_okW _ (by decide)
+
+/-- B2: `Y` may be stored into `P` under `K1` -/
+theorem valYP5 : WValOk d5.1 P (maxInlineMapValue d5.1.T K1.size) (.child Y 0) :=
+  ⟨freshB_live (by decide), unrefB_sound (by decide), not_anc_of_fresh (by decide) (by decide), by decide⟩
+
+/-- B2: the overwrite is a successful run of the MODEL operation -/
+theorem runE6 : d5.1.mapSet P K1 (.child Y 0) d5.2 = .ok e6 := by
+  rw [mapSet_eq_S]; exact eq_okM _ (by decide)
+
+theorem runE7 : e6.2.1.arrInsert X 1 (pl 2) e6.2.2 = .ok e7 := by
+  rw [arrInsert_eq_S]; exact eq_okW _ (by decide)
+
 end Atree.C11Scenario
